@@ -531,7 +531,14 @@ func (x *fnCtx) applyContract(st *State, fr *Frame, in ssa.Instruction, con *Con
 					panic(r)
 				}
 			}()
-			st.assume(x.evalSpecBool(env2, cl.Expr))
+			g := x.evalSpecBool(env2, cl.Expr)
+			if g == False && !st.dead && x.eng.cfg.Layers["contract"] {
+				// the postcondition contradicts what is known at the call site outright: either
+				// the path was infeasible already (then this is discharged), or the contracts are
+				// inconsistent and everything behind the call would silently vanish
+				x.addVC(st, short, "callpost", x.ord(fr, in), fmt.Sprintf("%s.%d", con.Func, cl.Ord), False, fmt.Sprintf("postcondition of %s is consistent with the state at the call: %s", con.Func, cl.Text), x.eng.posStr(in.Pos()))
+			}
+			st.assume(g)
 		}()
 	}
 	return res
